@@ -31,6 +31,9 @@ let rec parse_px n toks acc =
   | x :: y :: c :: t -> parse_px (n - 1) t ((pt x y, z_in c) :: acc)
   | _ -> failwith "bad pixel"
 
+(* generated stream token  G n a b : the n colours (a*i + b) mod 251, i = 0 .. n-1 *)
+let gen_stream n a b = Stdlib.List.init n (fun i -> z_of_int ((a * i + b) mod 251))
+
 let rec parse_ops n toks acc =
   if n = 0 then (Stdlib.List.rev acc, toks) else
   match toks with
@@ -38,18 +41,28 @@ let rec parse_ops n toks acc =
   | "F" :: x :: y :: w :: h :: "L" :: k :: t ->
       let (cs, t') = take (int_of_string k) t in
       parse_ops (n - 1) t' (FillContiguous (rc x y w h, Fin (Stdlib.List.map z_in cs)) :: acc)
+  | "F" :: x :: y :: w :: h :: "G" :: gn :: ga :: gb :: t ->
+      parse_ops (n - 1) t (FillContiguous (rc x y w h, Fin (gen_stream (int_of_string gn) (int_of_string ga) (int_of_string gb))) :: acc)
   | "F" :: x :: y :: w :: h :: "I" :: c :: t -> parse_ops (n - 1) t (FillContiguous (rc x y w h, Rep (z_in c)) :: acc)
   | "S" :: x :: y :: w :: h :: c :: t -> parse_ops (n - 1) t (FillSolid (rc x y w h, z_in c) :: acc)
   | "K" :: c :: t -> parse_ops (n - 1) t (Clear (z_in c) :: acc)
   | _ -> failwith "bad op"
 
-(* replay the ordered pixel stores into a table and print the sorted map *)
-let smap_out (ws : (point * color) list) : string =
-  let h = Hashtbl.create 64 in
-  Stdlib.List.iter (fun (p, c) -> Hashtbl.replace h (int_of_z p.py, int_of_z p.px) (int_of_z c)) ws;
+(* replay the ordered pixel stores of each operation into a table and print the sorted map after EVERY
+   operation: the stores of the prefix ops[..i] are run_stack bb kind st ops[..i] (flat_map distributes) *)
+let snapshot h =
   let l = Hashtbl.fold (fun k v acc -> (k, v) :: acc) h [] in
   let l = Stdlib.List.sort compare l in
   Stdlib.String.concat "," (Stdlib.List.map (fun ((y, x), c) -> Printf.sprintf "%d:%d:%d" x y c) l)
+
+let maps_out bb kind st ops : string =
+  let h = Hashtbl.create 64 in
+  let one op =
+    Stdlib.List.iter (fun (p, c) -> Hashtbl.replace h (int_of_z p.py, int_of_z p.px) (int_of_z c)) (run_stack bb kind st [op]);
+    snapshot h in
+  match ops with
+  | [] -> snapshot h
+  | _ -> Stdlib.String.concat " | " (Stdlib.List.map one ops)
 
 let tstack args =
   match args with
@@ -61,7 +74,7 @@ let tstack args =
        | nops :: t ->
            let (ops, _) = parse_ops (int_of_string nops) t [] in
            let st = Stdlib.List.rev ads_inner_first in   (* model: head = outermost *)
-           "BB " ^ src (bbox_stack st bb) ^ " MAP " ^ smap_out (run_stack bb kind st ops)
+           "BB " ^ src (bbox_stack st bb) ^ " MAP " ^ maps_out bb kind st ops
        | _ -> "BAD-ARGS")
   | _ -> "BAD-ARGS"
 
@@ -95,6 +108,8 @@ let tcrop args =
   | w :: h :: cx :: cy :: cw :: ch :: "L" :: n :: t ->
       let (cs, _) = take (int_of_string n) t in
       list_out z_out (cropped_iter (Fin (Stdlib.List.map z_in cs)) { sw = z_in w; sh = z_in h } (rc cx cy cw ch))
+  | [w; h; cx; cy; cw; ch; "G"; n; a; b] ->
+      list_out z_out (cropped_iter (Fin (gen_stream (int_of_string n) (int_of_string a) (int_of_string b))) { sw = z_in w; sh = z_in h } (rc cx cy cw ch))
   | [w; h; cx; cy; cw; ch; "I"; c] ->
       list_out z_out (cropped_iter (Rep (z_in c)) { sw = z_in w; sh = z_in h } (rc cx cy cw ch))
   | _ -> "BAD-ARGS"
